@@ -451,6 +451,18 @@ def c04(ctx, case, io, views):
                     det = detect_py(v)
                     if det and kind_of_mt(det) != kind_of_mt(mt):
                         ctx.violation("push acknowledged as %s although the body is %s" % (mt, det), hist(case, k, res), "C04:type-inconsistent")
+                    # what it references exists in the repository: in particular every referenced digest is a digest
+                    try:
+                        jb = json.loads(body.decode("utf-8"))
+                    except Exception:
+                        jb = None
+                    if isinstance(jb, dict):
+                        refs_ = ([jb.get("config")] + list(jb.get("layers") or [])) if kind_of_mt(mt) == "image" else list(jb.get("manifests") or [])
+                        for x_ in refs_:
+                            dgx = x_.get("digest") if isinstance(x_, dict) else None
+                            if not (isinstance(dgx, str) and gen.dvalid_py(dgx)):
+                                ctx.violation("push acknowledged although it references %r, which is not the digest of anything" % (dgx,), hist(case, k, res), "C04:invalid-reference-digest")
+                                break
             elif not (400 <= status < 500):
                 ctx.violation("manifest push answered %s" % status, hist(case, k, res), "C04:status")
         if st.get("refcheck"):
